@@ -18,7 +18,11 @@ class BrentsRootFinder:
         self.fa = f_start
         self.fb = f_end
 
-        assert self.fa * self.fb < 0, "Function root needs to be between a and b"
+        # A zero ordinate at one end is fine: that end is an exact root (e.g. the norm of a
+        # noisy trajectory hits the jump threshold exactly at a time-step boundary).
+        assert self.fa * self.fb <= 0 and (
+            self.fa != 0 or self.fb != 0
+        ), "Function root needs to be between a and b"
 
         # b has to be the better guess
         if abs(self.fa) < abs(self.fb):
